@@ -20,10 +20,10 @@ vars == <<l, a, reqs>>
 None == [none |-> TRUE]
 Init == l = 1 /\ a = None /\ reqs = 0
 
-(* "+5" is accepted by i32 parsing but is arguably not "a decimal integer": either typing is a step (alt) *)
+(* "+5", "007", "-0", " 5" are accepted by some integer parsers but are arguably not "a decimal 32-bit integer": either typing is a step (alt) *)
 Typed(o, alt) == CASE o.class = "true" -> BoolV(TRUE) [] o.class = "false" -> BoolV(FALSE)
                    [] o.class = "int" -> IntV(o.ival)
-                   [] o.class = "plusint" -> (IF alt THEN IntV(o.ival) ELSE KwV(o.text))
+                   [] o.class \in {"plusint", "altint"} -> (IF alt THEN IntV(o.ival) ELSE KwV(o.text))    \* +5, 007, -0, " 5"
                    [] OTHER -> KwV(o.text)
 RECURSIVE OptCalls(_,_,_)
 OptCalls(os, i, alt) == IF i > Len(os) THEN <<>>
@@ -37,6 +37,17 @@ ObservedUri(gs) == IF Len(gs) >= 1 /\ N_puri \in DOMAIN gs[1].attrs THEN gs[1].a
 HasHeader(h, name, value) == name \in DOMAIN h /\ \E i \in 1..Len(h[name]) : h[name][i] = value
 
 UStart(e) == a' = e /\ reqs' = 0
+(* What C18 states about the requests: the Print-Job request CARRIES job-name, requesting-user-name (operation      *)
+(* group) and every key=value option (job group) with the value its text denotes, and the document is the input,      *)
+(* unchanged.  It does not say that nothing else is in the request, which version is spoken, or what the state query   *)
+(* asks for - those are not compared.                                                                                   *)
+GroupOf(gs, tag) == IF \E i \in 1..Len(gs) : gs[i].tag = tag THEN gs[FirstIdx(gs, tag)].attrs ELSE EmptyMap
+(* expT / expF: the request with every ambiguous option text typed as integer / as keyword; each option may go either way *)
+Carried(seen, expT, expF) ==
+  LET s1 == GroupOf(seen, 1)  e1 == GroupOf(expT, 1)  s2 == GroupOf(seen, 2)  eT == GroupOf(expT, 2)  eF == GroupOf(expF, 2) IN
+  /\ \A n \in (DOMAIN e1) \cap {N_jobname, N_user} : (IF n \in DOMAIN s1 THEN s1[n] = e1[n] ELSE FALSE)
+  /\ \A n \in DOMAIN eT : (IF n \in DOMAIN s2 THEN s2[n] \in {eT[n], eF[n]} ELSE FALSE)
+NotReadyScript == a.script.check \in {"stopped", "blocked-single", "blocked-set"}
 UReq(e) ==
   /\ a # None
   /\ e.method = "POST" /\ e.term = "end" /\ AllTokOK(e.toks)
@@ -44,29 +55,27 @@ UReq(e) ==
   /\ HasHeader(e.hdr, "content-type", "application/ipp")
   /\ LET r    == Reading(AbsToks(e.toks))
          uriV == ObservedUri(r.v)
-         isCheck == Checked /\ reqs = 0
-         exp(alt) == IF isCheck THEN Build("GetPrinterAttributes", <<>>, 0, uriV)
-                     ELSE Build("PrintJob", Calls(a.args, alt), 0, uriV)
-         \* the state query may ask for any subset of attributes: requested-attributes is not compared
-         seen == IF isCheck /\ Len(r.v) >= 1
-                 THEN [r.v EXCEPT ![1].attrs = [n \in (DOMAIN r.v[1].attrs) \ {N_req} |-> r.v[1].attrs[n]]]
-                 ELSE r.v
+         exp(alt) == Build("PrintJob", Calls(a.args, alt), 0, uriV)
      IN /\ r.ok
-        /\ e.hdr_ipp.ver = exp(TRUE).ver /\ e.hdr_ipp.code = exp(TRUE).code
-        /\ \E alt \in BOOLEAN : ReqNorm(seen) = ReqNorm(exp(alt).groups)
-        /\ uriV.k = "Uri"                      \* which URI it must be is C13's statement, not this one's
-        /\ (isCheck => e.paylen = 0)
-        /\ (~isCheck => /\ e.pay_ok                                   \* the document is the file, unchanged
-                        /\ a.args.input # "missing"                   \* an unreadable file is never replaced by something else
-                        /\ (Checked => a.script.check = "ready")      \* nothing is submitted to a stopped / blocked printer
-                        /\ reqs = (IF Checked THEN 1 ELSE 0))         \* exactly one Print-Job
+        /\ IF e.hdr_ipp.code = 11                           \* Get-Printer-Attributes: the state query comes first, without document
+           THEN Checked /\ reqs = 0 /\ e.paylen = 0
+           ELSE /\ e.hdr_ipp.code = 2                       \* Print-Job
+                /\ reqs = (IF Checked THEN 1 ELSE 0)        \* after the query; exactly one
+                /\ Carried(NormMsg(r.v), NormMsg(exp(TRUE).groups), NormMsg(exp(FALSE).groups))
+                /\ e.pay_ok                                 \* the document is the file, unchanged
+                /\ a.args.input # "missing"                 \* an unreadable file is never replaced by something else
+                /\ (Checked => ~NotReadyScript)             \* nothing is submitted to a stopped / blocked printer
   /\ reqs' = reqs + 1 /\ UNCHANGED a
 UExit(e) ==
   /\ a # None
-  /\ LET proceed == (~Checked \/ a.script.check = "ready") /\ a.args.input # "missing"
-         want    == (IF Checked THEN 1 ELSE 0) + (IF proceed THEN 1 ELSE 0)
-         normal  == /\ (IF a.args.input = "missing" THEN reqs <= want ELSE reqs = want)   \* the file may be opened before or after the state query
-                    /\ (e.code = 0) = (proceed /\ a.script.print = "ok")
+  /\ LET queried == IF Checked THEN 1 ELSE 0
+         \* the session as the property describes it, case by case
+         normal ==
+           IF a.args.input = "missing" THEN reqs <= queried /\ e.code # 0
+           ELSE IF Checked /\ NotReadyScript THEN reqs = 1                \* nothing submitted; the exit status is not fixed (every exchange succeeded)
+           ELSE IF Checked /\ a.script.check # "ready"                    \* the query itself failed: not every exchange succeeded
+                THEN reqs \in {1, 2} /\ e.code # 0
+           ELSE reqs = queried + 1 /\ ((e.code = 0) = (a.script.print = "ok"))
          \* a command line with an argument that is not key=value (outside the quantifier) may also be refused outright
          refused == a.malformed /\ reqs = 0 /\ e.code # 0
      IN /\ (normal \/ refused)
